@@ -15,6 +15,15 @@ use crate::io_uring::{Submissions, libc};
 /// Not the address of any object: dereferencing it is a CBMC pointer failure.
 const POISON: u64 = 0xdead_0000_0000_0008;
 
+/// A completion entry as the kernel would post it (for harnesses outside `io_uring`).
+pub(crate) fn completion(user_data: u64, res: i32, flags: u32) -> Completion {
+    let mut c: Completion = Completion(unsafe { std::mem::zeroed() });
+    c.0.user_data = user_data;
+    c.0.res = res;
+    c.0.flags = flags;
+    c
+}
+
 pub(crate) fn build_completions(len: u32) -> Completions {
     let mem = k::cq_mem();
     Completions {
@@ -420,4 +429,117 @@ fn c05_bookkeeping_ignored() {
 /// deliver a completion the way `Completions::poll` does.
 pub(crate) unsafe fn process(c: &Completion) {
     unsafe { c.process() }
+}
+
+// ===========================================================================
+// C11 glue: how Completions::poll uses the polling-state handshake.
+// ===========================================================================
+
+static mut C11_SHARED: crate::verif_stubs::V<*const crate::io_uring::Shared> = crate::verif_stubs::V::new(std::ptr::null());
+static mut C11_STATE_IN_KERNEL: crate::verif_stubs::V<u8> = crate::verif_stubs::V::new(0xff);
+static mut C11_TS_SEC: crate::verif_stubs::V<i64> = crate::verif_stubs::V::new(-1);
+static mut C11_TS_NSEC: crate::verif_stubs::V<i64> = crate::verif_stubs::V::new(-1);
+static mut C11_HAS_TS: crate::verif_stubs::V<bool> = crate::verif_stubs::V::new(false);
+static mut C11_WAKE_IN_KERNEL: crate::verif_stubs::V<bool> = crate::verif_stubs::V::new(false);
+static mut C11_WAKE_TOLD_TO_POST: crate::verif_stubs::V<bool> = crate::verif_stubs::V::new(false);
+static mut C11_ENTER_FAILS: crate::verif_stubs::V<bool> = crate::verif_stubs::V::new(false);
+
+/// io_uring_enter(GETEVENTS) as the poll's wait: records the handshake word as
+/// a concurrent waker would find it while the poller is in the kernel, the
+/// timeout handed to the kernel, and optionally runs a concurrent wake().
+unsafe fn c11_enter(_fd: libc::c_int, _to_submit: libc::c_uint, _min: libc::c_uint, flags: libc::c_uint, arg: *const libc::c_void, _size: usize) -> libc::c_int {
+    unsafe {
+        ENTER_CALLS.v += 1;
+        let shared = &*C11_SHARED.v;
+        C11_STATE_IN_KERNEL.v = shared.polling.0.load(Ordering::Relaxed);
+        assert!(flags & libc::IORING_ENTER_EXT_ARG != 0 && flags & libc::IORING_ENTER_GETEVENTS != 0);
+        let a = &*arg.cast::<libc::io_uring_getevents_arg>();
+        C11_HAS_TS.v = a.ts != 0;
+        if a.ts != 0 {
+            let ts = &*(a.ts as *const libc::timespec);
+            C11_TS_SEC.v = ts.tv_sec;
+            C11_TS_NSEC.v = ts.tv_nsec;
+        }
+        if C11_WAKE_IN_KERNEL.v {
+            C11_WAKE_TOLD_TO_POST.v = shared.polling.wake();
+        }
+        if C11_ENTER_FAILS.v {
+            *libc::__errno_location() = libc::EBADF;
+            return -1;
+        }
+    }
+    0
+}
+
+fn noop_wake_blocked_c11(_s: &crate::io_uring::Shared) {}
+
+//@ prop: C11
+//@ tier: quick
+//@ what: how the real Completions::poll takes part in the wake-up handshake when the completion queue is empty: (1) while the poller is inside io_uring_enter the shared word says "polling", so a wake() arriving then is told to post the ring message (never skipped); (2) a wake() that happened before the poll started makes this poll pass a ZERO timeout to the kernel whatever timeout the caller gave (None included), i.e. it cannot block; without a prior wake the caller's timeout is passed unchanged; (3) when the poll returns -- also when io_uring_enter failed -- the word is back to "not polling, not awoken", so the next wake() is not skipped as "already awoken"
+//@ bound: empty CQ; caller timeout in {None, 0, 3.5 s}; wake before the poll or not, wake during the kernel wait or not, enter failing or not (all symbolic)
+//@ encodes: io_uring::cq::Completions::poll; io_uring::Shared::enter; PollingState::{set_polling,wake}
+//@ stubs: io_uring::Shared::wake_blocked_futures -> no-op (C03); <core::io::CustomOwner as Drop>::drop -> no-op
+#[kani::proof]
+#[kani::unwind(2)]
+#[kani::stub(crate::io_uring::Shared::wake_blocked_futures, noop_wake_blocked_c11)]
+#[kani::stub(<core::io::CustomOwner as core::ops::Drop>::drop, crate::verif_stubs::custom_owner_drop_noop)]
+fn c11_poll_handshake() {
+    let mut table = k::base_table();
+    table.io_uring_enter2 = Some(c11_enter);
+    k::install(table);
+    k::sq_set(0, 0);
+    let mem = k::cq_mem();
+    mem.head.store(5, Ordering::Relaxed);
+    mem.tail.store(5, Ordering::Relaxed);
+    let shared = k::build_shared(2, false, false);
+    let mut cq = build_completions(2);
+    let woken_before: bool = kani::any();
+    let wake_during: bool = kani::any();
+    let fails: bool = kani::any();
+    let tsel: u8 = kani::any();
+    kani::assume(tsel < 3);
+    let timeout = match tsel {
+        0 => None,
+        1 => Some(Duration::ZERO),
+        _ => Some(Duration::new(3, 500_000_000)),
+    };
+    unsafe {
+        ENTER_CALLS.v = 0;
+        C11_SHARED.v = &shared;
+        C11_STATE_IN_KERNEL.v = 0xff;
+        C11_HAS_TS.v = false;
+        C11_WAKE_IN_KERNEL.v = wake_during;
+        C11_WAKE_TOLD_TO_POST.v = false;
+        C11_ENTER_FAILS.v = fails;
+    }
+    if woken_before {
+        let told = shared.polling.wake();
+        assert!(!told, "no poll in progress: nothing to post (the flag alone carries the wake-up)");
+    }
+    let r = cq.poll(&shared, timeout);
+    assert!(r.is_ok() == !fails);
+    unsafe {
+        assert!(ENTER_CALLS.v == 1, "empty queue: one kernel wait");
+        assert!(C11_STATE_IN_KERNEL.v & 0b01 != 0, "announced as polling while waiting in the kernel");
+        if wake_during {
+            assert!(C11_WAKE_TOLD_TO_POST.v, "a wake() during the kernel wait is told to post the ring message");
+        }
+        if woken_before {
+            assert!(C11_HAS_TS.v && C11_TS_SEC.v == 0 && C11_TS_NSEC.v == 0, "woken before the poll: zero timeout, the poll cannot block");
+        } else {
+            match tsel {
+                0 => assert!(!C11_HAS_TS.v, "no timeout given: none passed"),
+                1 => assert!(C11_HAS_TS.v && C11_TS_SEC.v == 0 && C11_TS_NSEC.v == 0),
+                _ => assert!(C11_HAS_TS.v && C11_TS_SEC.v == 3 && C11_TS_NSEC.v == 500_000_000, "caller's timeout passed unchanged"),
+            }
+        }
+    }
+    assert!(shared.polling.0.load(Ordering::Relaxed) == 0, "after the poll: not polling, not awoken");
+    // hence the next wake() is neither skipped nor asked to post
+    kani::cover!(woken_before && tsel == 0 && !fails);
+    kani::cover!(wake_during && !woken_before && tsel == 2);
+    kani::cover!(fails && wake_during);
+    std::mem::forget(r);
+    std::mem::forget(cq);
+    std::mem::forget(shared);
 }
